@@ -112,5 +112,36 @@ func corpusWitnesses(o *Out) {
 				"same-call-same-result-after-other-calls/D10-version-iteration-order corpus", "corpus:D10")
 		}
 	}
+	// D11 (C20): two version labels, identity converter; a1's re-apply at another version loses what
+	// the updater owns beneath the item, the same requests at one version keep it
+	{
+		up := (&merge.UpdaterBuilder{Converter: sameVersionConverter{}}).BuildUpdater()
+		run := func(second fieldpath.APIVersion) (string, bool) {
+			live := tv("null")
+			m := fieldpath.ManagedFields{}
+			live, m, err := up.Apply(live, tv(`{"l":[{"name":"c","sub":[0]}]}`), "v1", m, "a1", false)
+			if err != nil {
+				return "", false
+			}
+			live, m, err = up.Update(live, tv(`{"l":[{"name":"c","sub":[0,1]}]}`), "v1", m, "u1")
+			if err != nil {
+				return "", false
+			}
+			res, _, err := up.Apply(live, tv(`{"l":[{"name":"c"}]}`), second, m, "a1", false)
+			if err != nil {
+				return "", false
+			}
+			if res == nil {
+				res = live
+			}
+			return fmt.Sprint(res.AsValue().Unstructured()), true
+		}
+		single, ok1 := run("v1")
+		multi, ok2 := run("v2")
+		if ok1 && ok2 && single != multi {
+			o.Fail("C20", "versioned-run-equals-single-version-run/object", "corpus witness: single-version run "+single+", versioned run "+multi,
+				"versioned-run-equals-single-version-run/D11-version-by-version-add-back corpus", "corpus:D11")
+		}
+	}
 	_ = value.NewValueInterface
 }
